@@ -57,7 +57,8 @@ pub mod clock {
 ///
 /// Off by default (pinned behaviour).  When switched on for the current
 /// thread, the indices carried by the two swapped ops (`Delete.new_index`,
-/// `Insert.old_index`) are recomputed after the swap.  A harness uses this
+/// `Insert.old_index`) are recomputed after the swap, provided they were exact
+/// before it.  A harness uses this
 /// only to decide whether a failing case is caused by the swap site.
 pub mod swap {
     use crate::DiffOp;
@@ -88,15 +89,23 @@ pub mod swap {
         if !REPAIR.with(|c| c.get()) {
             return;
         }
+        // `ops[i]` and `ops[i + 1]` have just been swapped.  Only a pair whose carried
+        // indices were exact *before* the swap is repaired; a pair that was already
+        // inconsistent (a fault introduced elsewhere) is left alone so that the fault
+        // stays visible with the switch on.
         match (ops[i], ops[i + 1]) {
             (
                 DiffOp::Delete {
-                    old_index, old_len, ..
+                    old_index,
+                    old_len,
+                    new_index: carried_new,
                 },
                 DiffOp::Insert {
-                    new_index, new_len, ..
+                    old_index: carried_old,
+                    new_index,
+                    new_len,
                 },
-            ) => {
+            ) if carried_old == old_index && carried_new == new_index + new_len => {
                 ops[i] = DiffOp::Delete {
                     old_index,
                     old_len,
@@ -110,12 +119,16 @@ pub mod swap {
             }
             (
                 DiffOp::Insert {
-                    new_index, new_len, ..
+                    old_index: carried_old,
+                    new_index,
+                    new_len,
                 },
                 DiffOp::Delete {
-                    old_index, old_len, ..
+                    old_index,
+                    old_len,
+                    new_index: carried_new,
                 },
-            ) => {
+            ) if carried_new == new_index && carried_old == old_index + old_len => {
                 ops[i] = DiffOp::Insert {
                     old_index,
                     new_index,
